@@ -142,7 +142,7 @@ Definition maybe_update {A} (w : withspec A) (important : bool) (o : origin) (sp
 Inductive style :=
 | SColour (r g b : N)
 | SBgColour (r g b : N)
-| SDisplayNone
+| SDisplay (none : bool)       (* display: none / any other value *)
 | SWhiteSpace (m : wsmode)
 | SContent (t : text).
 
@@ -155,7 +155,7 @@ Definition styledata0 : styledata := mkstd [] [] [].
 Record cscore := mkcore {
   c_colour : withspec (N * N * N);
   c_bg : withspec (N * N * N);
-  c_display : withspec unit;          (* Some tt = display:none *)
+  c_display : withspec bool;          (* Some true = display:none, Some false = another value *)
   c_white_space : withspec wsmode;
   c_content : withspec text
 }.
@@ -178,8 +178,8 @@ Definition merge_core (c : cscore) (important : bool) (o : origin) (sp : spec) (
   | SBgColour r g b =>
     mkcore (c_colour c) (maybe_update (c_bg c) important o sp (r, g, b)) (c_display c)
            (c_white_space c) (c_content c)
-  | SDisplayNone =>
-    mkcore (c_colour c) (c_bg c) (maybe_update (c_display c) important o sp tt)
+  | SDisplay b =>
+    mkcore (c_colour c) (c_bg c) (maybe_update (c_display c) important o sp b)
            (c_white_space c) (c_content c)
   | SWhiteSpace m =>
     mkcore (c_colour c) (c_bg c) (c_display c)
